@@ -12,9 +12,9 @@ B  the REAL BYTECODE of inspect_frame (types.FunctionType(real.__code__, stub gl
    against a nondeterministic environment that stands for a target racing on another
    thread: every read of frame.f_lasti / the interpreter frame's stacktop / a value-stack
    slot is an event before which the world may move to another position (symbolic Ints),
-   EXCEPT where the real bytecode between the previous read and this one contains nothing
-   but instructions that cannot release the GIL (computed from the real code object on every
-   run - the atomic "check f_lasti, then read the slot" step the source relies on).
+   EXCEPT before a slot read when the real bytecode between the previous read and it contains
+   nothing but instructions that cannot release the GIL (computed from the real code object on
+   every run - the atomic "check f_lasti, then read the slot" step the source relies on).
    Assertion: when a snapshot is accepted, every slot in it was read at the accepted
    position, it is slots 0..n-1 of ONE attempt, n comes from a stacktop value bracketed by
    two reads of the accepted position, and the blocks are those of the accepted position;
@@ -805,7 +805,7 @@ def run(rep: Any, tier: str, seed: int) -> None:
                        f"optionally a second parked thread running the same functions (depth 1-2, observed depth then 1..{max(2, maxd - 2)}); "
                        "StackSlice(outer=any level of the other thread)",
                   "B": f"targets {list(TARGETS)}; position a z3 Int over every offset of the code object, stacktop a z3 Int from -1 to nlocalsplus+stacksize+1 (per epoch), owner in 3 kinds, "
-                       f"the first slot NULL or not; the world moves at most ({moves}) times - each move picks a new position, a new stacktop (-1 or depth 0..2; any value -1..frame end+1 when it never moves) and possibly 'the frame finished' -, before any environment read not separated from the previous one by atomic bytecode only; "
+                       f"the first slot NULL or not; the world moves at most ({moves}) times - each move picks a new position, a new stacktop (-1 or depth 0..2; any value -1..frame end+1 when it never moves) and possibly 'the frame finished' -, before any environment read (a slot read only if it is not separated from the previous read by atomic bytecode only); "
                        "plus the storm schedule (position alternates before every check)",
                   "C": "4 lifecycle stages, advancing by a symbolic amount before each of the reads unwrap_thread performs"}
     rep.outside = ["MEMORY SAFETY UNDER REAL OS SCHEDULES: whether CPython can release the GIL inside the atomic check-then-read step, whether a stale PyObject* can be dereferenced, interpreter crashes "
